@@ -816,6 +816,10 @@ def directed():
         C(b"HTTP/1.1 302 Found\r\nLocation: http://nosuch.invalid/x\r\nContent-Length: 0\r\n\r\n", edits=["redirect-bad"], expect="error"),
         C(b"HTTP/1.1 302 Found\r\nLocation: /y\r\nContent-Length: 0\r\n\r\n" + OK, edits=["redirect"], expect="ok"),    # relative Location
         C(b"HTTP/1.1 302 Found\r\nLocation: http://h:ab/x\r\nContent-Length: 0\r\n\r\n" + OK, nreq=2, edits=["redirect-bad"]),  # next response still delivered
+        # a redirected HEAD is re-sent as HEAD: its reply has no body even without Content-Length
+        C(b"HTTP/1.1 303 See Other\r\nLocation: #f\r\n\r\nHTTP/1.1 200 \xe9\r\n\r\n", nreq=2, method="HEAD", edits=["redirect"], expect="ok", nvalid=1),
+        C(b"HTTP/1.1 302 Found\r\nLocation: /y\r\nContent-Length: 9\r\n\r\nHTTP/1.1 200 OK\r\nContent-Length: 5\r\n\r\n" + OK, nreq=2, method="HEAD", edits=["redirect"], expect="ok", nvalid=2),
+        C(b"HTTP/1.1 302 Found\r\nLocation: /y\r\nContent-Length: 0\r\n\r\nHTTP/1.1 200 OK\r\nContent-Length: 2\r\n\r\nhi", method="POST", edits=["redirect"], expect="ok"),
         C(b"HTTP/1.1 302 Found\r\nContent-Length: 0\r\n\r\n", redirectable=False, edits=["redirect-bad"], expect="ok"),
         C(b"HTTP/1.1 200 OK\r\nContent-Type: application/json\r\nContent-Length: 5000\r\n\r\n" + b"[" * 5000, edits=["deepjson"], expect="ok"),
         C(b"HTTP/1.1 200 OK\r\nContent-Length: 5000\r\n\r\n" + b"[" * 5000, edits=["deepjson"], expect="ok", dictable=True),
